@@ -157,10 +157,30 @@ func addStubIntrinsics(t map[string]intrinsic) {
 			return Tuple{(*Value)(nil), joseErr(m, "go-jose/go-jose: compact JWS format must have three parts")}
 		}
 		tt := m.lookupType("github.com/go-jose/go-jose/v4/jwt", "JSONWebToken")
+		hdr := harnessGlobal(m, "VerifJWTHeader")
+		// documented contract: parsing fails unless the alg header is one of the given signature algorithms
+		if algs, ok := a[1].(Slice); ok {
+			ht := m.lookupType("github.com/go-jose/go-jose/v4", "Header")
+			if alg, isStr := hdr.(Struct)[fieldIndex(ht, "Algorithm")].(Str); isStr {
+				if want, conc := alg.Concrete(); conc {
+					found := false
+					for _, e := range algs.A {
+						if s, ok := e.(Str); ok {
+							if cs, c2 := s.Concrete(); c2 && cs == want {
+								found = true
+							}
+						}
+					}
+					if !found {
+						return Tuple{(*Value)(nil), joseErr(m, "go-jose/go-jose: unexpected signature algorithm \""+want+"\"")}
+					}
+				}
+			}
+		}
 		cell := new(Value)
 		*cell = m.zero(tt)
 		hi := fieldIndex(tt, "Headers")
-		(*cell).(Struct)[hi] = Slice{A: []Value{harnessGlobal(m, "VerifJWTHeader")}}
+		(*cell).(Struct)[hi] = Slice{A: []Value{hdr}}
 		return Tuple{cell, Iface{}}
 	}
 	t["(*"+authn+".jwtAuthenticator).fetchJWKS"] = func(m *Machine, fr *frame, a []Value) Value {
